@@ -20,6 +20,9 @@ ENGINES = {
                     ("harness", "engines/cachesim/cachesim.cpp"),
                     ("harness", "engines/cachesim/cache_shared.cpp"),
                     ("harness", "engines/cachesim/cache_tls.cpp")],
+        # automatic variables without an initialiser get a fixed non-zero pattern: a value the cache returns without ever having set it is then
+        # visibly not one that was inserted (and the run stays deterministic)
+        "defines": ["-ftrivial-auto-var-init=pattern"],
     },
 }
 
@@ -62,7 +65,7 @@ PROPS = {
                  "15% single-thread histories of the shared and 15% of the thread-local variant (<=12 operations); scheduler policy "
                  "uniform / PCT(d<=3) / <=3 pre-emptions, spurious compare-exchange failures at 0/10/30%. Every load, store and "
                  "compare-exchange of the cache is a yield point before and after the access (before only, in half of the runs). The simulated atomics carry the memory orders "
-                 "the code specifies; a vector-clock happens-before model reports a payload access that those orders leave unordered against a conflicting access. distinct = hash of the executed "
+                 "the code specifies; the payload is an instrumented value type, or (25-50% of runs) a trivially constructible one whose empty answer must be the value-initialised T(); a vector-clock happens-before model reports a payload access that those orders leave unordered against a conflicting access. distinct = hash of the executed "
                  "(thread, site) sequence combined with the recorded history; non-trivial = a concurrent run with at least one "
                  "pre-emption inside an operation, or a sequential run with >=2 operations"),
         "distinct_measure": "hash of the executed (thread,site) sequence + operation results",
